@@ -55,11 +55,12 @@ def write_zoo(ctx, n, label="zoo", salt=0):
     return files
 
 
-def compare_modes(ctx, label, files, modes, base_mode="", steps=400000, what="collection schedule", nan_boxing=False):
+def compare_modes(ctx, label, files, modes, base_mode="", steps=400000, what="collection schedule", nan_boxing=False, bin="vharness"):
     """Run every file under base_mode and each of `modes`; outcomes must be identical.
     Returns False after reporting the first difference.  `nan_boxing`: use the harness built with
-    the NaN-boxed value representation (both the base run and the other modes)."""
-    base = common.run_batch(["%s --steps %d %s" % (base_mode, steps, f) for f in files], nan_boxing=nan_boxing)
+    the NaN-boxed value representation (both the base run and the other modes).  `bin`: which runner
+    (`vh_runpoison` = the same runner under an allocator that poisons released blocks)."""
+    base = common.run_batch(["%s --steps %d %s" % (base_mode, steps, f) for f in files], nan_boxing=nan_boxing, bin=bin)
     stats = {"programs": len(files), "modes": len(modes) + 1, "runs": len(files), "scheduled_collections": 0,
              "base_ok": sum(1 for r in base if r["status"].startswith("Ok")),
              "base_runtime_error": sum(1 for r in base if r["status"].startswith("RuntimeError")),
@@ -67,7 +68,7 @@ def compare_modes(ctx, label, files, modes, base_mode="", steps=400000, what="co
              "base_crash": sum(1 for r in base if r["status"].startswith(("PANIC", "CRASH")))}
     for mode in modes:
         mode = mode.format(seed=ctx.seed)
-        runs = common.run_batch(["%s --steps %d %s" % (mode, steps, f) for f in files], nan_boxing=nan_boxing)
+        runs = common.run_batch(["%s --steps %d %s" % (mode, steps, f) for f in files], nan_boxing=nan_boxing, bin=bin)
         stats["runs"] += len(files)
         for f, b, r in zip(files, base, runs):
             stats["scheduled_collections"] += int(r.get("scheduled_collections", 0) or 0)
@@ -82,7 +83,9 @@ def compare_modes(ctx, label, files, modes, base_mode="", steps=400000, what="co
                                       "base": {"status": b["status"], "stdout": b["stdout"][-1500:], "stderr": b["stderr"][-800:]},
                                       "other": {"status": r["status"], "stdout": r["stdout"][-1500:], "stderr": r["stderr"][-800:]},
                                       "nan_boxing": nan_boxing,
-                                      "run": "harness/%s/debug/vharness run %s --steps %d <program>" % ("target-nb" if nan_boxing else "target", mode, steps)})
+                                      "runner": bin,
+                                      "run": "harness/%s/debug/vharness run %s --steps %d <program>" % ("target-nb" if nan_boxing else "target", mode, steps)
+                                             if bin == "vharness" else "echo '%s --steps %d <program>' | harness/target/debug/%s" % (mode, steps, bin)})
                 return False
         for f, r in zip(files, runs):
             ctx.count_case((f, mode), nontrivial=int(r.get("scheduled_collections", 0) or 0) > 0)
